@@ -23,6 +23,7 @@ import (
 	"github.com/cloudwego/hertz/pkg/network"
 	"github.com/cloudwego/hertz/pkg/network/netpoll"
 	"github.com/cloudwego/hertz/pkg/network/standard"
+	"github.com/cloudwego/hertz/pkg/protocol/http1/resp"
 
 	"verif/harness/lib/mon"
 	"verif/harness/lib/wire"
@@ -85,9 +86,12 @@ type scen struct {
 	Callers int
 	// RegistryFails: the server has a service registry whose Deregister returns an error
 	RegistryFails bool
+	// RegistrySlow: ... whose Deregister succeeds, but only long after the exit wait time
+	RegistrySlow bool
 	// KeepAliveField: the busy handlers set "Connection: keep-alive" on their response (as
 	// long-poll and event-stream handlers do); shutdown still has to mark it for closing
 	KeepAliveField bool
+	Streamed       bool // the busy handler answers through the chunked writer (Response.HijackWriter)
 }
 
 // readAll reads until EOF/error with a deadline and returns what arrived.
@@ -137,6 +141,12 @@ type failingRegistry struct{}
 func (failingRegistry) Register(*registry.Info) error   { return nil }
 func (failingRegistry) Deregister(*registry.Info) error { return fmt.Errorf("registry unreachable") }
 
+// slowRegistry: the registry centre answers, but only after d (slow or half-reachable).
+type slowRegistry struct{ d time.Duration }
+
+func (slowRegistry) Register(*registry.Info) error     { return nil }
+func (s slowRegistry) Deregister(*registry.Info) error { time.Sleep(s.d); return nil }
+
 var nilShutdowns int32
 
 func oneScenario(w *mon.W, c *mon.Case) {
@@ -152,6 +162,8 @@ func oneScenario(w *mon.W, c *mon.Case) {
 	}
 	s.RegistryFails = r.Chance(8)
 	s.KeepAliveField = r.Chance(3)
+	s.Streamed = r.Chance(3)
+	s.RegistrySlow = !s.RegistryFails && r.Chance(10)
 	if s.RegistryFails {
 		// violations in this sub-domain are attributed separately (see known_findings.txt)
 		c.KeyTag = "failing-deregistration"
@@ -195,6 +207,9 @@ func oneScenario(w *mon.W, c *mon.Case) {
 		if s.RegistryFails {
 			sopts = append(sopts, server.WithRegistry(failingRegistry{}, &registry.Info{ServiceName: "verif", Addr: &net.TCPAddr{IP: net.IPv4(127, 0, 0, 1), Port: port}}))
 		}
+		if s.RegistrySlow {
+			sopts = append(sopts, server.WithRegistry(slowRegistry{s.ExitWait + 3*time.Second}, &registry.Info{ServiceName: "verif", Addr: &net.TCPAddr{IP: net.IPv4(127, 0, 0, 1), Port: port}}))
+		}
 		h = server.New(sopts...)
 		runErr = make(chan error, 1)
 		started = true
@@ -213,6 +228,15 @@ func oneScenario(w *mon.W, c *mon.Case) {
 		}
 		if s.KeepAliveField {
 			ctx.Response.Header.Set("Connection", "keep-alive")
+		}
+		if s.Streamed {
+			// the response-streaming API: the writer sends the head itself at its first Write
+			ctx.Response.HijackWriter(resp.NewChunkedBodyWriter(&ctx.Response, ctx.GetWriter()))
+			b := wire.PosBody(1, 20000)
+			ctx.Write(b[:5000])
+			ctx.Flush()
+			ctx.Write(b[5000:])
+			return
 		}
 		ctx.Response.SetBody(wire.PosBody(1, 20000))
 	})
@@ -464,6 +488,9 @@ func oneScenario(w *mon.W, c *mon.Case) {
 	}
 	if s.RegistryFails {
 		w.Count("scenarios_with_failing_deregistration", 1)
+	}
+	if s.RegistrySlow {
+		w.Count("scenarios_with_slow_deregistration", 1)
 	}
 	_ = sdErr
 	if dur > s.ExitWait+2*time.Second {
